@@ -303,7 +303,7 @@ def main() -> int:
     rep = Report(PROP)
     t = tier()
     sd = seed()
-    n_fw = 100 if t == "quick" else 1500
+    n_fw = 220 if t == "quick" else 1500
     passes = 150 if t == "quick" else 300
     for case, st, res in run_cases(run_fw_case, [(i, sd, passes, (0, 0, 700)[i % 3]) for i in range(n_fw)]):
         if st != "ok":
@@ -325,7 +325,7 @@ def main() -> int:
             rep.violation(msg, w, key=key)
         if len(rep.samples) < 3:
             rep.sample({"animations": res["anims"], "period_ms": res["period"], "steps_observed": res["stats"]["steps"]})
-    n_host = 40 if t == "quick" else 800
+    n_host = 100 if t == "quick" else 800
     for case, st, res in run_cases(run_host_case, [(i, sd, 50) for i in range(n_host)]):
         if st != "ok":
             rep.inconclusive_because(f"host case {case} failed: {res[-300:]}")
